@@ -535,7 +535,7 @@ impl EliasFanoCursor<'_> {
             return self.advance_one();
         }
 
-        let target_idx = self.idx + k;
+        let target_idx = self.idx.saturating_add(k);
         if target_idx >= self.ef.len {
             self.idx = self.ef.len;
             return None;
